@@ -74,6 +74,8 @@ func genC07(t *rapid.T) c07Case { return genHistory(t, 5, 40, 3) }
 // histHooks lets C14 look at every new table file.
 type histHooks struct {
 	onTable func(dir string, ev TrackEvent, cfg gen.Cfg) error
+	// atEnd runs while the directory still exists, all handles closed
+	atEnd func(dir string, store *Store) error
 }
 
 func runHistory(sig string, c c07Case, o *Obs, hooks *histHooks) error {
@@ -214,6 +216,20 @@ func runHistory(sig string, c c07Case, o *Obs, hooks *histHooks) error {
 	}
 	if err := CompareView(sig+"/fresh", "fresh handle at the end", st, store); err != nil {
 		return err
+	}
+	if hooks != nil && hooks.atEnd != nil {
+		st.Close()
+		if reader != nil {
+			reader.Close()
+			reader = nil
+		}
+		if err := hooks.atEnd(dir, store); err != nil {
+			return err
+		}
+		st, err = open()
+		if err != nil {
+			return Failf(sig+"/reopen", "NewStack after the other implementation read the directory: %v", err)
+		}
 	}
 	o.ClassIf(nCompactions > 0, "has-compaction")
 	o.ClassIf(midOverTomb > 0, "midrange-compaction-over-tombstone")
